@@ -1,2 +1,3 @@
 pub mod dynbuild;
 pub mod rt;
+pub mod z;
